@@ -2004,7 +2004,8 @@ Proof.
     rewrite Hx1. apply cell_eqb_eq in Hx2. subst x.
     destruct (cell_at_app restyle W (ch :: t) (sumw pre) pre 0 (blank fill) Hwp ltac:(lia)) as [acc' Ea].
     rewrite <- El in Ea. rewrite Ea, Z.add_0_l.
-    inversion Hwt; subst. rewrite cell_at_hit; auto; [|apply Hpos; rewrite El; apply in_or_app; right; left; reflexivity|lia].
+    assert (Ht0 : wok t) by (inversion Hwt; auto).
+    rewrite cell_at_hit; auto; [|apply Hpos; rewrite El; apply in_or_app; right; left; reflexivity|lia].
     rewrite cell_eqb_refl. cbn [andb].
     specialize (IHs (pre ++ [ch])). rewrite sumw_app, sumw_cons, sumw_nil, Z.add_0_r in IHs.
     apply IHs. rewrite <- app_assoc. exact El. }
